@@ -34,7 +34,9 @@ RULE = (
     "(tree depth <= 3, fan-out <= 3, templates repeated), actuals = whole signals, static slices / bit indices of "
     "wider objects, .unsigned/.signed/.bitvector views, parent ports passed through, computed values (x ^ y, x + c, "
     "x < y) on inputs, width-mismatched actuals in both directions; instances created in architecture(), via std.OpenEntity / std.ConnectedEntity and inside a "
-    "concurrent context; declaration order, keyword order and directions permuted. Non-trivial = the hierarchical "
+    "concurrent context (there also slices / views of values computed in the context); parent-owned registers with "
+    "non-null defaults (optionally reset) connected whole to instance inputs, power-up values compared; declaration "
+    "order, keyword order and directions permuted. Non-trivial = the hierarchical "
     "design compiled and was checked, and it has >= 2 instances in the tree, or instantiation depth >= 2, or a "
     "slice/index/view actual; distinct = hash of the spec"
 )
@@ -244,7 +246,8 @@ def _match_instances(spec, t, vinsts, out, d):
                 sl = a.get("sl")
                 if a.get("op"):
                     # a computed value: the actual is a fresh signal that carries the value of the expression
-                    exp[f.lower()] = (None, "expr", p["dir"])
+                    psl = a.get("psl")
+                    exp[f.lower()] = (None, ("expr", None if psl is None else tuple(psl)), p["dir"])
                 else:
                     exp[f.lower()] = (roots, None if sl is None else tuple(sl), p["dir"])
             else:
@@ -291,11 +294,13 @@ def _match_instances(spec, t, vinsts, out, d):
                 probs.append(("unresolved", f, dr, f"actual of {f} is not a name: {act!r}"))
                 continue
             if roots is None:
-                if na[0] in known or na[1] is not None:
-                    probs.append(("wrong_actual", f, dr, f"{f}: helper-created signal expected, found {na}"))
-                autos.append(na[0])
-                if sel == "expr":
+                want_sel = sel[1] if isinstance(sel, tuple) else None   # slice / index of a computed value
+                if na[0] in known or na[1] != want_sel:
+                    probs.append(("wrong_actual", f, dr, f"{f}: fresh signal{want_sel or ''} expected, found {na}"))
+                if isinstance(sel, tuple):
                     exprs.append((f, na[0], inst["where"]))
+                else:
+                    autos.append(na[0])
                 continue
             if na[0] not in known:
                 probs.append(("unresolved", f, dr, f"{f}: actual {na} is not a known object of {t['name']}"))
@@ -399,7 +404,14 @@ def check(case):
     reach = reachable(spec)
     helpers = sorted({i["helper"] for ti in reach if T[ti]["kind"] == "node" for i in T[ti]["insts"]})
     wheres = sorted({i["where"] for ti in reach if T[ti]["kind"] == "node" for i in T[ti]["insts"]})
-    seq = any(T[ti]["kind"] == "leaf" and T[ti]["seq"] for ti in reach)
+    seq = any((T[ti]["kind"] == "leaf" and T[ti]["seq"]) or T[ti].get("regs") for ti in reach)
+    for ti in reach:
+        regs = {r["name"] for r in T[ti].get("regs") or []}
+        if regs and any(a.get("root") in regs and a.get("sl") is None and not a.get("view") and not a.get("op")
+                        for i in T[ti]["insts"] for a in i["conn"].values()):
+            out.labels.append("default_register_to_instance_input")
+        if any(r["rst"] for r in T[ti].get("regs") or []):
+            out.labels.append("register_with_reset")
     repeated = any(len([i for i in T[ti]["insts"]]) != len({i["t"] for i in T[ti]["insts"]})
                    for ti in reach if T[ti]["kind"] == "node")
     out.labels += [f"depth{depth}", f"inst{min(n_inst, 6)}", "seq" if seq else "comb"]
@@ -495,15 +507,18 @@ def check(case):
         for sim in (sim_h, sim_f):
             if sim is not None:
                 sim.poke(clk=0)  # a first edge U -> 1 is not a rising edge
-    for step, word in enumerate(words):
+    steps = [(True, w) for w in words]
+    if ref.clocked and words:
+        steps.insert(0, (False, words[0]))      # power-up values: inputs applied, no clock edge yet
+    for step, (edge, word) in enumerate(steps):
         ins = REF.unpack_stimulus(ref.inputs, word)
-        exp = ref.clock(ins) if ref.clocked else ref.outputs_for(ins)
+        exp = ref.clock(ins) if ref.clocked and edge else ref.outputs_for(ins)
         got = {}
         for side, sim in (("hier", sim_h), ("flat", sim_f)):
             if sim is None:
                 continue
             try:
-                if ref.clocked:
+                if ref.clocked and edge:
                     sim.clock("clk", **ins)
                 else:
                     sim.poke(**ins)
